@@ -106,6 +106,9 @@ def _freeze(E, v):
             E.st.next_ident += 1
             ident = E.st.next_ident
             hit = Arr(ident, v.shape, v.ty, v.kind, v.off, v.stride, writeable=False)
+            if getattr(v, 'lead', None) is not None:           # a (nested) list of opaque values keeps its shape information
+                hit.lead = v.lead
+                hit.owner = ident
             E.st.ghost[key] = hit
             if not hasattr(E, '_frozen') or E._frozen_owner is not E.st:
                 E._frozen = {}
